@@ -3,13 +3,13 @@
 import os
 D = os.path.dirname(os.path.abspath(__file__))
 DEVS = ["IndexFieldNamed", "AliasKeepsSourceName", "ExternalIsObject", "CreateFieldNotNamed", "PackageMethodRefInvoked", "VarPackageCountByte",
-        "MatchOperatorBytes", "LoadTableSevenOperands", "IfBodyFlattened", "RelPathInTerm", "ValueNamesFromFinalPlace"]
+        "MatchOperatorBytes", "LoadTableSevenOperands", "IfBodyFlattened", "RelPathInTerm", "ValueNamesFromFinalPlace", "EmptyBufferInDeferred"]
 C11 = ["D1", "D1b", "D2", "D2c", "D3", "D5", "D6", "D7", "D9"]
 def S(xs): return "{" + ", ".join('"%s"' % x for x in xs) + "}"
-def cfg(name, module_invs, prelude, fresh, maxprod, maxtab, maxdepth, decls, forms, values, stmts, maxstmts, emit=True, bug="", devs=None, exc=None):
+def cfg(name, module_invs, prelude, fresh, maxprod, maxtab, maxdepth, decls, forms, values, stmts, maxstmts, emit=True, bug="", devs=None, exc=None, keep=False):
     devs = DEVS if devs is None else devs
     exc = (C11 + DEVS + ["InvisibleCallee", "MethodAsRef", "HiddenNameInDeferred", "BankFieldUnitInDeferred"]) if exc is None else exc
-    s = ("CONSTANTS\n  Prelude <- %s\n  Fresh <- %s\n  PreScopes = {\"_SB_\"}\n  MaxProd = %d  MaxTables = %d  MaxDepth = %d\n  Decls = %s\n  Forms = %s\n"
+    s = ("\\* Keep_Excluded: the check leaves this Excluded list as it is\n" if keep else "") + ("CONSTANTS\n  Prelude <- %s\n  Fresh <- %s\n  PreScopes = {\"_SB_\"}\n  MaxProd = %d  MaxTables = %d  MaxDepth = %d\n  Decls = %s\n  Forms = %s\n"
          "  Values = %s\n  Stmts = %s  MaxStmts = %d\n  Devs = %s\n  Excluded = %s\n  Emit = %s  Bug = \"%s\"\nINIT Init\nNEXT Next\n%sCHECK_DEADLOCK FALSE\n") % (
         prelude, fresh, maxprod, maxtab, maxdepth, S(decls), S(forms), S(values), S(stmts), maxstmts, S(devs), S(exc),
         "TRUE" if emit else "FALSE", bug, "".join("INVARIANT %s\n" % i for i in module_invs))
@@ -19,9 +19,19 @@ GEN = ["LoaderSoundX", "EmitProg"]
 # ---- leg M/G profiles (generator MCAmlNsX): Quick = small scope enumerated in seconds, Full = thorough tier
 cfg("MCAmlNsXFieldsQuick", GEN, "PreFields", "Fresh4", 1, 1, 1, ["Device", "Scope", "DataRegion", "Field", "IndexField", "BankField"], ["abs", "caret"], ["const", "bufop"], [], 0)
 cfg("MCAmlNsXFieldsFull", GEN, "PreFields", "Fresh4", 2, 1, 1, ["Device", "Scope", "DataRegion", "Field", "IndexField", "BankField"], ["abs"], ["const"], [], 0)
-cfg("MCAmlNsXDeclsQuick", GEN, "PreDecls", "Fresh3", 2, 1, 1, ["Alias", "External", "CreateField", "Name", "Scope"], ["abs"], ["pkgref", "pkgmeth", "bufname", "bufcall", "bufop"], [], 0)
+cfg("MCAmlNsXDeclsQuick", GEN, "PreDecls", "Fresh2", 2, 1, 1, ["Alias", "External", "CreateField", "Name"], ["abs"], ["pkgref", "pkgmeth", "bufname", "bufcall"], [], 0)
 cfg("MCAmlNsXDeclsFull", GEN, "PreDecls", "Fresh4", 3, 2, 2, ["Alias", "External", "CreateField", "Name", "Scope", "Device", "Method0"], ["abs", "caret"], ["const", "pkgref", "pkgmeth", "bufname", "bufcall", "bufop"], ["store", "call"], 1)
-cfg("MCAmlNsXStmtsQuick", GEN, "PreBody", "Fresh2", 2, 1, 1, [], ["abs"], [], ["sync", "notify", "match", "call", "calloplast", "cfield", "store", "pkg", "varpkg", "buf"], 2)
-cfg("MCAmlNsXStmtsFull", GEN, "PreBody", "Fresh2", 3, 1, 1, [], ["abs"], [], ["sync", "notify", "match", "call", "calloplast", "cfield", "store", "pkg", "varpkg", "buf", "if"], 3)
-cfg("MCAmlNsXFlowQuick", GEN, "PreBody", "Fresh2", 5, 1, 1, [], [], [], ["if", "else", "while", "notify"], 5)
+cfg("MCAmlNsXStmtsQuick", GEN, "PreBody", "Fresh2", 1, 1, 1, [], ["abs"], [], ["sync", "notify", "match", "call", "calloplast", "cfield", "store", "pkg", "varpkg", "buf"], 1)
+cfg("MCAmlNsXStmtsFull", GEN, "PreBody", "Fresh2", 2, 1, 1, [], ["abs"], [], ["sync", "notify", "match", "call", "calloplast", "cfield", "store", "pkg", "varpkg", "buf"], 2)
+cfg("MCAmlNsXFlowQuick", GEN, "PreBody", "Fresh2", 4, 1, 1, [], [], [], ["if", "else", "while", "notify"], 4)
 cfg("MCAmlNsXFlowFull", GEN, "PreBody", "Fresh2", 7, 1, 1, [], [], [], ["if", "else", "while", "notify", "call"], 7)
+
+# ---- design model of the operand collection (MCAmlBodyX): BodyRefines on straight-line bodies; design mutants and the open trigger must be rejected
+BODY = ["call", "callop", "calloplast", "store", "notify", "sync", "match"]
+cfg("MCAmlBodyXQuick", ["BodyRefines"], "PreBody", "Fresh2", 2, 1, 1, [], [], [], ["call", "calloplast", "store", "notify", "match"], 2, emit=False)
+cfg("MCAmlBodyXFull", ["BodyRefines"], "PreBody", "Fresh2", 3, 1, 1, [], ["abs"], [], ["call", "calloplast", "store", "notify", "sync", "match"], 3, emit=False)
+for b in ["ConnectBeforeResolve", "NoParentSiblings", "ForwardOrder"]:
+    cfg("MCAmlBodyXBug_" + b, ["BodyRefines"], "PreBody", "Fresh2", 2, 1, 1, [], [], [], ["call", "calloplast", "store"], 2, emit=False, bug=b)
+# the pinned design on the trigger construct of D5 (operator term in a non-final argument position): Keep_Excluded
+c11 = [x for x in C11 if x != "D5"]
+cfg("MCAmlBodyXOpen_D5", ["BodyRefines"], "PreBody", "Fresh2", 1, 1, 1, [], [], [], ["callop"], 1, emit=False, exc=c11 + DEVS + ["InvisibleCallee", "MethodAsRef", "HiddenNameInDeferred", "BankFieldUnitInDeferred"], keep=True)
